@@ -7,7 +7,7 @@
 set -u
 HERE="$(cd "$(dirname "${BASH_SOURCE[0]}")/.." && pwd)"
 alt="$(cd "$1" && pwd)" || exit 2; shift
-dst=/tmp/altverif
+dst="${ALTVERIF_DIR:-/tmp/altverif}"
 mkdir -p "$dst"
 rsync -a --delete --exclude target --exclude replays --exclude evidence --exclude .git --exclude shadow --exclude 'build.log' "$HERE"/ "$dst"/
 mkdir -p "$dst/replays" "$dst/evidence"
